@@ -555,6 +555,30 @@ def c17_equality(run):
                     acc.fail(key, f"equal elements disagree on {vals[i]!r}: {vd(a)[i]} vs {vd(b)[i]}", extra={"tags": tags + literal_tags(a, b)})
                 elif not pyspec.json_eq(js(a), js(b)):
                     acc.fail(key, f"equal elements serialise differently: {jkey(js(a))[:160]} vs {jkey(js(b))[:160]}", extra={"tags": tags + literal_tags(a, b)})
+        # an element that was used, then reconfigured to equal a fresh one, must behave like it
+        from .props2 import c13_scenarios
+        for name, init, steps, final in c13_scenarios():
+            e = init()
+            if isinstance(e, type):
+                continue
+            for v in vals[::7]:
+                outcome(e, copy.deepcopy(v))
+            try:
+                for stp in steps:
+                    stp(e)
+            except Exception:
+                continue
+            twin = final()
+            key = f"reconfigured:{name}"
+            acc.case(key)
+            if e == twin:
+                big = vals + [{"a": "s", "b": 1}, {"b": 1}, "abc", "ab", ["abc"], ["x1"], 0, 3, 10, {"ab": "x"}]
+                for v in big:
+                    k1 = outcome(e, copy.deepcopy(v))[0]
+                    k2 = outcome(twin, copy.deepcopy(v))[0]
+                    if k1 != k2:
+                        acc.fail(key, f"equal elements (one of them reconfigured after use) disagree on {v!r}: {k1} vs {k2}")
+                        break
     finally:
         w.__exit__(None, None, None)
     return acc.result()
@@ -727,6 +751,9 @@ def c19_models():
     return subs, {"Inner": Inner, "Other": Other}
 
 
+C19_PROBES = [3.0, 0.0, 2.5, True, None, "s", [3.0], [1, "a"], [2.0, "x"], {"n": 2.0}, [{"n": 1.0}], [], {}]
+
+
 def c19_annotations(run):
     from statham.schema.elements import Object
     from statham.schema.elements.meta import ObjectMeta, ObjectClassDict
@@ -757,7 +784,7 @@ def c19_annotations(run):
                 el = prop.element
                 if isinstance(el, type):
                     cl[el.__name__] = el
-                datas = [{"p": g} for g in good] + ([] if required else [{}])
+                datas = [{"p": g} for g in good] + ([] if required else [{}]) + [{"p": g} for g in C19_PROBES]
                 for data in datas:
                     key = f"{name}/req={required}: {ann} <- {jkey(data)}"
                     k, m = outcome(M, copy.deepcopy(data))
@@ -856,6 +883,9 @@ def c02_generated(run):
             if len(set(names)) != len(names):
                 acc.fail(name, f"parsed classes do not have distinct names: {names}")
             import re as _re
+            want_n = count_object_schemas(deref_doc(tmp, name))
+            if len(distinct) != want_n:
+                acc.fail(name, f"document has {want_n} distinct object schemas but {len(distinct)} model classes were produced: {names}")
             declared = _re.findall(r"^class (\w+)\(", src, _re.M)
             if sorted(declared) != sorted(set(names)):
                 acc.fail(name, f"module declares classes {declared}, distinct object schemas are {sorted(set(names))} (exactly one class each)")
@@ -892,6 +922,29 @@ def c02_generated(run):
         shutil.rmtree(tmp, ignore_errors=True)
         w.__exit__(None, None, None)
     return acc.result()
+
+
+def count_object_schemas(doc):
+    """Distinct object schemas of a dereferenced document (by JSON content)."""
+    seen = set()
+
+    def go(n, is_schema):
+        if isinstance(n, dict):
+            if is_schema and (n.get("type") == "object"):
+                seen.add(jkey({k: v for k, v in n.items() if k != "definitions"}))
+            for k, v in n.items():
+                if k in ("properties", "patternProperties", "definitions", "dependencies"):
+                    if isinstance(v, dict):
+                        for s in v.values():
+                            go(s, True)
+                elif k in ("items", "additionalItems", "additionalProperties", "contains", "propertyNames", "not"):
+                    for s in (v if isinstance(v, list) else [v]):
+                        go(s, True)
+                elif k in ("anyOf", "oneOf", "allOf"):
+                    for s in v:
+                        go(s, True)
+    go(doc, True)
+    return len(seen)
 
 
 def deref_doc(tmp, name):
@@ -1182,3 +1235,40 @@ def c06_tags(S, E):
     if has_empty_required(S):
         tags.add("D28-shape")
     return sorted(tags)
+
+
+def c12_class_names(run):
+    """Same-titled but different object schemas at every schema position get distinct class names."""
+    from statham.schema.parser import parse
+    from statham.serializers.orderer import get_object_classes
+    acc = Acc(run, "C12-class-names", "a second, different object schema with the same title placed at each of 21 schema positions: all model classes have distinct names and the generated module declares each")
+    w = quiet()
+    try:
+        other = {"type": "object", "title": "Twin", "properties": {"b": {"type": "integer"}}}
+        for pname, sub in c20_positions(other):
+            if pname in ("root", "definitions"):
+                continue
+            doc = {"type": "object", "title": "Root", "properties": {
+                "first": {"type": "object", "title": "Twin", "properties": {"a": {"type": "string"}}},
+                "holder": sub if pname not in ("object class property", "object class additionalProperties") else {**sub, "title": "Holder"}}}
+            key = pname
+            acc.case(key)
+            try:
+                els = parse(copy.deepcopy(doc))
+                classes = []
+                for c in get_object_classes(*els):
+                    if not any(c is d for d in classes):
+                        classes.append(c)
+                names = [c.__name__ for c in classes]
+                if len(set(names)) != len(names):
+                    acc.fail(key, f"two different object schemas titled 'Twin' (one at position {pname}) share a class name: {names}")
+                    continue
+                src, ns = exec_generated(els)
+                for c in classes:
+                    if not (ns.get(c.__name__) == c):
+                        acc.fail(key + " [python]", f"generated module does not declare a class equal to {c.__name__}")
+            except Exception as ex:
+                acc.fail(key, f"{type(ex).__name__}: {ex}")
+    finally:
+        w.__exit__(None, None, None)
+    return acc.result()
